@@ -29,16 +29,22 @@ pub struct MuxLog {
 pub struct MuxOpts {
     pub nobody: bool,
     pub hostile_ids: bool,
+    /// the ID counter wraps around during this case
+    pub wraps: bool,
 }
 
-fn nobody_message(rng: &mut Rng, used: &[i64], done: &[i64]) -> Vec<u8> {
+fn nobody_message(rng: &mut Rng, used: &[i64], done: &[i64], wraps: bool) -> Vec<u8> {
     // unsolicited (ID 0), late (ID of a completed op), unknown ID
     let kind = rng.below(4);
+    // "unknown" IDs come from a band the counter never reaches in these lanes (it starts at 0 or
+    // just below the wrap point); IDs of completed operations are only used while IDs cannot be
+    // re-allocated (no wrap in this case): a "late" response for an ID that is in use again would,
+    // correctly, be delivered to its new owner.
     let id = match kind {
         0 => 0,
-        1 if !done.is_empty() => *rng.pick(done),
+        1 if !done.is_empty() && !wraps => *rng.pick(done),
         _ => loop {
-            let c = 1 + rng.below(i32::MAX as u64 - 1) as i64;
+            let c = (1i64 << 30) + rng.below(1 << 20) as i64;
             if !used.contains(&c) {
                 break c;
             }
@@ -145,7 +151,7 @@ pub async fn mux_server(mut server: ServerEnd, mut rng: Rng, opts: MuxOpts) -> M
                 break;
             }
             if opts.nobody && rng.chance(1, 6) {
-                bytes.extend_from_slice(&nobody_message(&mut rng, &used, &done));
+                bytes.extend_from_slice(&nobody_message(&mut rng, &used, &done, opts.wraps));
                 log.nobody_sent += 1;
             }
             let ix = rng.usize(outstanding.len());
@@ -296,6 +302,7 @@ pub fn run_case_on(i: u64, rng: &mut Rng, rep: &mut Report, opts: MuxOpts, lane:
     let near_wrap = rng.chance(1, 4);
     let wrap_room = rng.below(8) as i32;
     let pilot_token = i * 1000 + 999;
+    let opts = MuxOpts { wraps: near_wrap, ..opts };
     if near_wrap {
         rep.count("cases_crossing_the_id_wrap_point", 1);
         programs.insert(0, vec![ClientOp::Stream { token: pilot_token, base: format!("op={},dc=pilot", pilot_token) }]);
@@ -472,19 +479,19 @@ pub fn routing_threads(ctx: &Ctx) -> Report {
     let n = ctx.n(3_000, 3_000_000);
     let mut c2 = ctx.clone();
     c2.threads = ctx.threads.min(4);
-    par_cases(&c2, "routing_threads", n, ctx.secs(20, 600), |i, rng, rep| run_case_on(i, rng, rep, MuxOpts { nobody: true, hostile_ids: false }, "routing_threads", false, true))
+    par_cases(&c2, "routing_threads", n, ctx.secs(20, 600), |i, rng, rep| run_case_on(i, rng, rep, MuxOpts { nobody: true, hostile_ids: false, wraps: false }, "routing_threads", false, true))
 }
 
 pub fn routing(ctx: &Ctx) -> Report {
     let n = ctx.n(40_000, 50_000_000);
-    par_cases(ctx, "routing", n, ctx.secs(30, 700), |i, rng, rep| run_case(i, rng, rep, MuxOpts { nobody: true, hostile_ids: false }, "routing", false))
+    par_cases(ctx, "routing", n, ctx.secs(30, 700), |i, rng, rep| run_case(i, rng, rep, MuxOpts { nobody: true, hostile_ids: false, wraps: false }, "routing", false))
 }
 
 /// Responses whose INTEGER message ID lies outside 0..2^31-1 and aliases an outstanding ID
 /// after 32-bit truncation must be delivered to nobody.
 pub fn hostile_ids(ctx: &Ctx) -> Report {
     let n = ctx.n(10_000, 5_000_000);
-    par_cases(ctx, "hostile_ids", n, ctx.secs(15, 200), |i, rng, rep| run_case(i, rng, rep, MuxOpts { nobody: true, hostile_ids: true }, "hostile_ids", false))
+    par_cases(ctx, "hostile_ids", n, ctx.secs(15, 200), |i, rng, rep| run_case(i, rng, rep, MuxOpts { nobody: true, hostile_ids: true, wraps: false }, "hostile_ids", false))
 }
 
 pub fn replay(ctx: &Ctx, v: &Value) -> Report {
@@ -497,10 +504,10 @@ pub fn replay(ctx: &Ctx, v: &Value) -> Report {
             return rep;
         }
         if lane == "routing_threads" {
-            run_case_on(i, &mut rng, &mut rep, MuxOpts { nobody: true, hostile_ids: false }, &lane, true, true);
+            run_case_on(i, &mut rng, &mut rep, MuxOpts { nobody: true, hostile_ids: false, wraps: false }, &lane, true, true);
             return rep;
         }
-        run_case(i, &mut rng, &mut rep, MuxOpts { nobody: true, hostile_ids: lane == "hostile_ids" }, &lane, true);
+        run_case(i, &mut rng, &mut rep, MuxOpts { nobody: true, hostile_ids: lane == "hostile_ids", wraps: false }, &lane, true);
     }
     rep
 }
